@@ -29,19 +29,25 @@ def flowOf (contract : String) : Msg → Option Flow
 
 def sumNat (l : List Nat) : Nat := l.foldr (· + ·) 0
 
+/-- what one message credits to `acct` in `d` -/
+def msgCredit (contract acct d : String) (m : Msg) : Nat :=
+  match flowOf contract m with
+  | some f => if f.to = acct ∧ f.denom = d then f.amount else 0
+  | none => 0
+
+/-- what one message takes from `acct` in `d` -/
+def msgDebit (contract acct d : String) (m : Msg) : Nat :=
+  match flowOf contract m with
+  | some f => if f.frm = acct ∧ f.denom = d then f.amount else 0
+  | none => 0
+
 /-- amount of `d` the message list moves to `acct` -/
 def credit (contract : String) (msgs : List Msg) (acct d : String) : Nat :=
-  sumNat (msgs.map fun m =>
-    match flowOf contract m with
-    | some f => if f.to = acct ∧ f.denom = d then f.amount else 0
-    | none => 0)
+  sumNat (msgs.map (msgCredit contract acct d))
 
 /-- amount of `d` the message list takes from `acct` -/
 def debit (contract : String) (msgs : List Msg) (acct d : String) : Nat :=
-  sumNat (msgs.map fun m =>
-    match flowOf contract m with
-    | some f => if f.frm = acct ∧ f.denom = d then f.amount else 0
-    | none => 0)
+  sumNat (msgs.map (msgDebit contract acct d))
 
 def fundsOf (funds : List Coin) (d : String) : Nat :=
   sumNat (funds.map fun c => if c.denom = d then c.amount else 0)
@@ -268,13 +274,16 @@ def paysExactly (contract : String) (msgs : List Msg) (exp : List (String × Str
   creditsMatch contract msgs exp (msgAccts contract msgs ++ exp.map (·.1))
     (msgDenoms contract msgs ++ exp.map (·.2.1))
 
-/-- the ask after reversing `c` units (`none` = leaves the book) -/
+/-- the ask after reversing `c` units (`none` = leaves the book): size and approver-supplied
+    amount both shrink by `c` -/
 def askAfterReverse (a : Ask) (c : Nat) : Option Ask :=
-  if a.size - c = 0 then none
-  else some { a with size := a.size - c,
-                     cls := match a.cls with
-                       | .ready ap conv => .ready ap ⟨conv.denom, a.size - c⟩
-                       | x => x }
+  if (a.reduce c).size = 0 then none else some (a.reduce c)
+
+/-- a requested partial size is a positive multiple of the size increment -/
+def reqSizeOK (requested : Option Nat) (inc : Nat) : Bool :=
+  match requested with
+  | some n => decide (n ≥ 1) && n % inc == 0
+  | none => true
 
 def C04_askOK (contract : String) (s : State) (id : String) (requested : Option Nat)
     (r : Response) (s' : State) : Bool :=
@@ -282,10 +291,7 @@ def C04_askOK (contract : String) (s : State) (id : String) (requested : Option 
   | none => false
   | some a =>
     let c := requested.getD a.size
-    decide (c ≤ a.size) &&
-    (match requested with
-     | some n => decide (n ≥ 1) && n % s.info.increment == 0
-     | none => true) &&
+    decide (c ≤ a.size) && reqSizeOK requested s.info.increment &&
     paysExactly contract r.msgs (askReversePays a c) &&
     s'.asks.get? id == askAfterReverse a c
 
@@ -300,10 +306,7 @@ def C04_bidOK (contract : String) (s : State) (id : String) (requested : Option 
   | none => false
   | some b =>
     let c := requested.getD b.remBase
-    decide (c ≤ b.remBase) &&
-    (match requested with
-     | some n => decide (n ≥ 1) && n % s.info.increment == 0
-     | none => true) &&
+    decide (c ≤ b.remBase) && reqSizeOK requested s.info.increment &&
     (match Dec.parse b.price with
      | none => false
      | some p =>
@@ -343,25 +346,34 @@ structure MatchAmounts where
   feeRefund : Nat
   deriving Repr, DecidableEq
 
+/-- the ask fee of exact arithmetic: configured rate × gross proceeds, halves away from zero -/
+def askFeeExact (i : Info) (gross : Nat) : Nat :=
+  match i.askFee with
+  | some fi => (match Dec.parse fi.rate with | some r => exactFee r gross | none => 0)
+  | none => 0
+
+/-- pro-rata split of the bid's unspent fee when `gross` of its quote is paid out and
+    `orig - gross` refunded: (fee to the fee account, fee refunded to the buyer) -/
+def bidFeeSplit (b : Bid) (gross orig : Nat) : Option (Nat × Nat) :=
+  match b.fee with
+  | none => some (0, 0)
+  | some f =>
+    match Dec.feeFor f.amount b.quote.amount (b.remQuote - gross),
+          Dec.feeFor f.amount b.quote.amount (b.remQuote - orig) with
+    | .ok needAfterFill, .ok needAfterAll =>
+      some (b.remFee - needAfterFill, needAfterFill - needAfterAll)
+    | _, _ => none
+
 /-- the amounts a match of `size` at `price` must move, from the pre-state alone -/
 def matchAmounts (s : State) (_a : Ask) (b : Bid) (price : String) (size : Nat) :
     Option MatchAmounts :=
   match Dec.parse price, Dec.parse b.price with
   | some p, some bp =>
     let gross := product p size
-    let askFee := match s.info.askFee with
-      | some fi => (match Dec.parse fi.rate with | some r => exactFee r gross | none => 0)
-      | none => 0
-    let improved := Dec.lt p bp
-    let orig := if improved then product bp size else gross
-    match b.fee with
-    | none => some ⟨gross, askFee, 0, orig - gross, 0⟩
-    | some f =>
-      match Dec.feeFor f.amount b.quote.amount (b.remQuote - gross),
-            Dec.feeFor f.amount b.quote.amount (b.remQuote - orig) with
-      | .ok needAfterFill, .ok needAfterAll =>
-        some ⟨gross, askFee, b.remFee - needAfterFill, orig - gross, needAfterFill - needAfterAll⟩
-      | _, _ => none
+    let orig := if Dec.lt p bp then product bp size else gross
+    match bidFeeSplit b gross orig with
+    | some (bf, fr) => some ⟨gross, askFeeExact s.info gross, bf, orig - gross, fr⟩
+    | none => none
   | _, _ => none
 
 def matchPays (s : State) (a : Ask) (b : Bid) (m : MatchAmounts) (size : Nat) :
@@ -450,7 +462,7 @@ def C07_bidConds (env : Env) (s : State) (c : Call) (id base : String) (fee : Op
 def C07_bidOK (env : Env) (s : State) (c : Call) (id base : String) (fee : Option Coin)
     (price quote : String) (quoteSize size : Nat) (r : Response) (s' : State) : Bool :=
   C07_bidConds env s c id base fee price quote quoteSize size &&
-  escrowOK env c r ⟨quote, quoteSize + (match fee with | some f => f.amount | none => 0)⟩ &&
+  escrowOK env c r ⟨quote, quoteSize + feeAmt fee⟩ &&
   s'.bids.get? id == some (.v3 { base := ⟨base, size⟩, accBase := 0, accQuote := 0, accFee := 0,
                                  fee := fee, id := id, owner := c.sender, price := price,
                                  quote := ⟨quote, quoteSize⟩ })
